@@ -135,6 +135,7 @@ type tlGen struct {
 	goName  map[string]bool // Go type names in use
 	singles []string        // constructor names of single-constructor types (bare references)
 	sums    []string        // result names of multi-constructor types (boxed references)
+	pending []tlDecl        // constructors of multi-constructor types still to be emitted (non-adjacent declaration)
 	seq     int
 }
 
@@ -297,6 +298,7 @@ func (g *tlGen) addType() int {
 	}
 	k := 2 + g.r.Intn(4)
 	res := ns + "." + upFirst(last)
+	var cs []tlDecl
 	for i := 0; i < k; i++ {
 		var cn string
 		for {
@@ -310,10 +312,39 @@ func (g *tlGen) addType() int {
 				break
 			}
 		}
-		g.s.types = append(g.s.types, tlDecl{name: ns + "." + cn, id: g.freshID(), fields: g.fields(false, 5), res: res})
+		cs = append(cs, tlDecl{name: ns + "." + cn, id: g.freshID(), fields: g.fields(false, 5), res: res})
 	}
+	// declaration order is part of the quantifier: the constructors of a type need not be adjacent.
+	// tl/parser places the type where its first constructor stands, so the fields of all of them
+	// use only what is declared before that point; the later constructors are emitted at a distance.
+	now := k
+	if g.r.Chance(55) {
+		now = 1 + g.r.Intn(k-1)
+	}
+	g.s.types = append(g.s.types, cs[:now]...)
+	g.pending = append(g.pending, cs[now:]...)
 	g.sums = append(g.sums, res)
 	return k
+}
+
+// flush emits up to n of the constructors still waiting (all when n < 0).
+func (g *tlGen) flush(n int) {
+	for len(g.pending) > 0 && n != 0 {
+		i := 0
+		if g.r.Chance(30) {
+			i = g.r.Intn(len(g.pending))
+			// keep the constructors of one type in their order
+			for j := 0; j < i; j++ {
+				if g.pending[j].res == g.pending[i].res {
+					i = j
+					break
+				}
+			}
+		}
+		g.s.types = append(g.s.types, g.pending[i])
+		g.pending = append(g.pending[:i], g.pending[i+1:]...)
+		n--
+	}
 }
 
 func (g *tlGen) addFunc() {
@@ -361,10 +392,14 @@ func genTlSchema(r *prng.R, size int) *tlSchema {
 			placed = true
 		}
 		n += g.addType()
+		if g.r.Chance(50) {
+			g.flush(1)
+		}
 	}
 	if !placed {
 		errDecl()
 	}
+	g.flush(-1)
 	for i := 0; i < nfun; i++ {
 		g.addFunc()
 	}
@@ -377,7 +412,13 @@ func genTlSchema(r *prng.R, size int) *tlSchema {
 func genTlExplore(r *prng.R, size int) *tlSchema {
 	s := genTlSchema(r, size)
 	pickType := func() *tlDecl { return &s.types[r.Intn(len(s.types))] }
-	switch r.Intn(9) {
+	switch r.Intn(11) {
+	case 9:
+		s.explore = "vector-with-two-parameters"
+		s.types = append(s.types, tlDecl{name: "x1.expVec", id: 0x0e0e0e07, fields: []tlField{{name: "v", ty: tlTy{k: "bare", ref: "(vector int long)"}}}, res: "x1.ExpVec"})
+	case 10:
+		s.explore = "error-type-with-two-constructors"
+		s.types = append(s.types, tlDecl{name: "liteServer.error2", id: 0x0e0e0e08, res: "liteServer.Error"})
 	case 0:
 		s.explore = "late-declaration"
 		if len(s.types) >= 2 {
@@ -531,9 +572,12 @@ func genTlAllBits() *tlSchema {
 	s := &tlSchema{}
 	s.types = append(s.types,
 		tlDecl{name: "liteServer.error", id: 0x48e1a9bb, fields: []tlField{{name: "code", ty: tlTy{k: "int"}}, {name: "message", ty: tlTy{k: "string"}}}, res: "liteServer.Error"},
-		tlDecl{name: "x1.leaf", id: 0x00000001, fields: []tlField{{name: "a", ty: tlTy{k: "int"}}}, res: "x1.Leaf"},
+		// the constructors of x1.Alt are not adjacent: another type and a user of x1.Alt stand between them
 		tlDecl{name: "x1.altA", id: 0xfffffffe, fields: []tlField{{name: "p", ty: tlTy{k: "long"}}}, res: "x1.Alt"},
-		tlDecl{name: "x1.altB", id: 0x80000000, res: "x1.Alt"})
+		tlDecl{name: "x1.leaf", id: 0x00000001, fields: []tlField{{name: "a", ty: tlTy{k: "int"}}}, res: "x1.Leaf"},
+		tlDecl{name: "x1.altB", id: 0x80000000, res: "x1.Alt"},
+		tlDecl{name: "x1.user", id: 0x00000002, fields: []tlField{{name: "alt", ty: tlTy{k: "boxed", ref: "x1.Alt"}}}, res: "x1.User"},
+		tlDecl{name: "x1.altC", id: 0x7fffffff, fields: []tlField{{name: "q", ty: tlTy{k: "int"}}, {name: "r", ty: tlTy{k: "bytes"}}}, res: "x1.Alt"})
 	vi := tlTy{k: "int"}
 	vl := tlTy{k: "bare", ref: "x1.leaf"}
 	kinds := []tlTy{{k: "int"}, {k: "long"}, {k: "int256"}, {k: "bytes"}, {k: "string"}, {k: "bool"}, {k: "nat"},
@@ -546,6 +590,9 @@ func genTlAllBits() *tlSchema {
 		return fs
 	}
 	s.types = append(s.types, tlDecl{name: "x1.allBits", id: 0x0a11b175, fields: mk(0), res: "x1.AllBits"})
-	s.funcs = append(s.funcs, tlDecl{name: "x1.getAllBits", id: 0x0a11b176, fields: mk(5), res: "x1.AllBits"})
+	s.funcs = append(s.funcs, tlDecl{name: "x1.getAllBits", id: 0x0a11b176, fields: mk(5), res: "x1.AllBits"},
+		tlDecl{name: "x1.getNothing", id: 0x0a11b177, res: "x1.Leaf"},
+		tlDecl{name: "x1.getAlt", id: 0x0a11b178, fields: []tlField{{name: "n", ty: tlTy{k: "int"}}}, res: "x1.Alt"},
+		tlDecl{name: "x1.getAltNoArgs", id: 0x0a11b179, res: "x1.Alt"})
 	return s
 }
